@@ -327,3 +327,136 @@ Proof.
       rewrite (D1 pre post Hpre). cbn [dbind]. change (negb (0 =? 0)) with false. cbv iota.
       rewrite utf16_dec_enc by assumption. reflexivity.
 Qed.
+
+(* ------------------------------------------------------------------ DHEADER *)
+Lemma rt_dheader_gen : forall {A} V E body (dbody : list Z -> Z -> dres A) a
+    (dhdr : list Z -> Z -> dres A),
+  (forall buf pos z p, des_prim V E buf KU32 pos = DOk z p -> dhdr buf pos = dbody buf p) ->
+  rt_ok body dbody a -> rt_ok (ser_dheader V E body) dhdr a.
+Proof.
+  intros A V E body dbody a dhdr Hd Hb pos Hpos.
+  unfold ser_dheader. cbv zeta.
+  set (pad := enc_align V 4 pos).
+  assert (Hp1 : 0 <= pos + blen pad + 4) by (pose proof (blen_nonneg pad); lia).
+  destruct (Hb _ Hp1) as [bb [E1 D1]].
+  set (z := wrap_u32 (blen bb)).
+  assert (Hz : 0 <= z <= u32_max).
+  { unfold z, wrap_u32, two32, u32_max. lia. }
+  destruct (rt_u32 V E z Hz pos Hpos) as [hb [E2 D2]].
+  assert (Hhb : hb = pad ++ int_enc E 4 z).
+  { unfold ser_prim, ret in E2. inversion E2. reflexivity. }
+  subst hb.
+  exists (pad ++ int_enc E 4 z ++ bb). split.
+  - rewrite E1. cbn [bind]. f_equal. f_equal.
+    rewrite !blen_app, int_enc_blen. lia.
+  - intros pre post Hpre.
+    replace (pre ++ (pad ++ int_enc E 4 z ++ bb) ++ post)
+      with (pre ++ (pad ++ int_enc E 4 z) ++ (bb ++ post)) by now rewrite <- !app_assoc.
+    rewrite (Hd _ _ _ _ (D2 pre (bb ++ post) Hpre)).
+    replace (pre ++ (pad ++ int_enc E 4 z) ++ bb ++ post)
+      with ((pre ++ pad ++ int_enc E 4 z) ++ bb ++ post) by now rewrite <- !app_assoc.
+    rewrite blen_app, int_enc_blen.
+    replace (pos + (blen pad + Z.of_nat 4)) with (pos + blen pad + 4) by lia.
+    rewrite (D1 (pre ++ pad ++ int_enc E 4 z) post)
+      by (rewrite !blen_app, int_enc_blen; lia).
+    f_equal. rewrite !blen_app, int_enc_blen. lia.
+Qed.
+
+Lemma rt_dheader : forall {A} V E body (dbody : list Z -> Z -> dres A) a,
+  rt_ok body dbody a ->
+  rt_ok (ser_dheader V E body)
+        (fun buf pos => dbind (des_prim V E buf KU32 pos) (fun _ p => dbody buf p)) a.
+Proof.
+  intros. eapply rt_dheader_gen; [|eassumption].
+  intros buf pos z p Hz. now rewrite Hz.
+Qed.
+
+Lemma rt_dheader_ignore : forall {A} V E body (dbody : list Z -> Z -> dres A) a,
+  rt_ok body dbody a ->
+  rt_ok (ser_dheader V E body) (fun buf pos => dbody buf (des_u32_ignore V E buf pos)) a.
+Proof.
+  intros. eapply rt_dheader_gen; [|eassumption].
+  intros buf pos z p Hz. unfold des_u32_ignore. now rewrite Hz.
+Qed.
+
+(* ------------------------------------------------------------------ induction on types *)
+Section TyInd.
+Variable P : ty -> Prop.
+Hypothesis Hprim : forall p, P (TPrim p).
+Hypothesis Hstr : P TStr.
+Hypothesis Hwstr : P TWStr.
+Hypothesis Henum : forall h ls, P (TEnum h ls).
+Hypothesis Hseq : forall e, P e -> P (TSeq e).
+Hypothesis Harr : forall n e, P e -> P (TArr n e).
+Hypothesis Hstruct : forall x ms, Forall (fun mt => P (snd mt)) ms -> P (TStruct x ms).
+Hypothesis Hunion : forall x d cs, P d -> Forall (fun mt => P (snd mt)) cs -> P (TUnion x d cs).
+Fixpoint ty_ind' (t : ty) : P t :=
+  match t with
+  | TPrim p => Hprim p
+  | TStr => Hstr
+  | TWStr => Hwstr
+  | TEnum h ls => Henum h ls
+  | TSeq e => Hseq e (ty_ind' e)
+  | TArr n e => Harr n e (ty_ind' e)
+  | TStruct x ms =>
+    Hstruct x ms
+      ((fix go (ms : list (minfo * ty)) : Forall (fun mt => P (snd mt)) ms :=
+          match ms with
+          | [] => Forall_nil _
+          | mt :: r => Forall_cons mt (ty_ind' (snd mt)) (go r)
+          end) ms)
+  | TUnion x d cs =>
+    Hunion x d cs (ty_ind' d)
+      ((fix go (ms : list (minfo * ty)) : Forall (fun mt => P (snd mt)) ms :=
+          match ms with
+          | [] => Forall_nil _
+          | mt :: r => Forall_cons mt (ty_ind' (snd mt)) (go r)
+          end) cs)
+  end.
+End TyInd.
+
+Definition cvS (V : ver) (E : endian) (ms : list (minfo * ty)) : MF :=
+  map (fun mt => (fst mt, (snd mt, ser_ty V E (snd mt)))) ms.
+Definition cvD (V : ver) (E : endian) (buf : list Z) (ms : list (minfo * ty)) : MG :=
+  map (fun mt => (fst mt, (snd mt, des_ty V E buf (snd mt)))) ms.
+
+Lemma ser_ty_struct : forall V E x ms,
+  ser_ty V E (TStruct x ms) = on_data (ser_struct_nested V E x (cvS V E ms)).
+Proof.
+  intros. cbn [ser_ty]. f_equal. f_equal.
+  induction ms as [|[m t] r IH]; [reflexivity|]. cbn [cvS map fst snd]. f_equal. exact IH.
+Qed.
+Lemma des_ty_struct : forall V E buf x ms pos,
+  des_ty V E buf (TStruct x ms) pos = as_data (des_struct_nested V E buf x (cvD V E buf ms) pos).
+Proof.
+  intros. cbn [des_ty]. f_equal. f_equal.
+  induction ms as [|[m t] r IH]; [reflexivity|]. cbn [cvD map fst snd]. f_equal. exact IH.
+Qed.
+
+Lemma sk_eqb_eq : forall a b, sk_eqb a b = true -> a = b.
+Proof. destruct a, b; cbn; congruence. Qed.
+Lemma sk_eqb_refl : forall a, sk_eqb a a = true.
+Proof. destruct a; reflexivity. Qed.
+
+(* ------------------------------------------------------------------ enumerations *)
+Lemma rt_enum : forall V E h ls d,
+  holder_ok h = true -> wt (TEnum h ls) (VData d) = true ->
+  rt_ok (ser_enum V E h d) (fun buf => des_enum V E buf h ls) d.
+Proof.
+  intros V E h ls d Hh Hw. cbn [wt] in Hw.
+  destruct d as [|[k0 v0] [|? ?]]; try discriminate.
+  destruct (Z.eqb_spec k0 0) as [->|Hk0]; [|destruct k0; try discriminate; congruence].
+  destruct v0 as [k z| | | | |]; try discriminate.
+  apply andb_prop in Hw as [Hw Hl]. apply andb_prop in Hw as [Hk Hr].
+  apply sk_eqb_eq in Hk. subst k.
+  assert (Hal : align_compat V (sk_size (prim_sk h))) by (destruct h, V; try discriminate; reflexivity).
+  assert (Hnc : prim_sk h = KChar8 -> z < 128) by (destruct h; discriminate).
+  pose proof (rt_prim V E (prim_sk h) z Hr Hnc Hal) as Hp.
+  intros pos Hpos. destruct (Hp pos Hpos) as [bs [E1 D1]].
+  exists bs. split.
+  - destruct h; try discriminate; cbn [ser_enum get_k lookup Z.eqb sk_eqb bind prim_sk] in *; exact E1.
+  - intros pre post Hpre. unfold des_enum.
+    replace (match h with PI8 => Some KI8 | PI16 => Some KI16 | PI32 => Some KI32 | _ => None end)
+      with (Some (prim_sk h)) by (destruct h; try discriminate; reflexivity).
+    rewrite (D1 pre post Hpre). cbn [dbind]. unfold mem in Hl. rewrite Hl. reflexivity.
+Qed.
